@@ -1730,6 +1730,8 @@ def loadArmFromURDF(file_name):
 
     def completeJointParse(new_element, parent):
         #print(new_element.name)
+        new_element.xyz_origin = tm()
+        new_element.axis = np.array([1.0, 0.0, 0.0])
         for child in parent:
             if child.tag == 'axis':
                 axis = np.array(child.get('xyz').split(), dtype=float)
